@@ -113,6 +113,8 @@ def decorate(rng, kx, ky, variant):
         x = {'cols': ['p'] + list(ex), 'rows': [{c: r[c] for c in ['p'] + list(ex)} for r in x['rows']]}
         y = {'cols': ['q'] + list(ey), 'rows': [{c: r[c] for c in ['q'] + list(ey)} for r in y['rows']]}
         lk, rk = [], []
+    if variant == 'crosskeep':          # explicit no-key join of tables that DO share columns: cross product, shared columns combined by mode
+        lk, rk = [], []
     if variant == 'bare':               # key columns only: duplicates are indistinguishable, pure bag counting
         x = {'cols': keys, 'rows': [{c: r[c] for c in keys} for r in kx['rows']]}
         y = {'cols': keys, 'rows': [{c: r[c] for c in keys} for r in ky['rows']]}
@@ -129,7 +131,7 @@ PLANS = [  # (variant, op, mode, spelling, how)
     ('computed_left', 'join', 'none', 'str', 'method'), ('computed_right', 'join', 'none', 'list', 'method'),
     ('computed_left', 'xor', 'l', 'str', 'method'), ('computed_both', 'join', 'none', 'str', 'method'),
     ('computed_pair', 'join', 'none', 'str', 'method'), ('computed_pair', 'xor', 'l', 'list', 'method'),
-    ('cross', 'join', 'none', 'list', 'method'), ('cross', 'join', 'none', 'none', 'operator'), ('cross', 'xor', 'l', 'list', 'method'),
+    ('cross', 'join', 'none', 'list', 'method'), ('crosskeep', 'join', 'none', 'list', 'method'), ('crosskeep', 'join', 'l', 'tuple', 'method'), ('crosskeep', 'join', 'fn', 'list', 'method'), ('cross', 'join', 'none', 'none', 'operator'), ('cross', 'xor', 'l', 'list', 'method'),
     ('plain', 'join', 'none', 'str', 'rejoin'), ('plain', 'xor', 'l', 'list', 'rejoin'), ('shared', 'join', 'r', 'list', 'rejoin'),
     ('bare', 'join', 'none', 'none', 'operator'), ('bare', 'xor', 'l', 'none', 'operator'), ('bare', 'join', 'none', 'same', 'method'),
 ]
